@@ -19,11 +19,26 @@ from checks.c04 import sym_addr, sym_inst, GEAR, DEVICE, INST
 K = "dali.command:"
 
 
+KNOWN_FAMILIES = ("_StandardCommand.__init__", "DAPC.__init__", "_SpecialCommand.__init__", "_ShortAddrSpecialCommand.__init__",
+                  "Initialise.__init__", "_StandardDeviceCommand.__init__", "_StandardInstanceCommand.__init__",
+                  "_SpecialDeviceCommand.__init__", "_SpecialDeviceCommandOneParam.__init__",
+                  "_SpecialDeviceCommandTwoParam.__init__", "_Event.__init__", "UnknownEvent.__init__",
+                  "AmbiguousInstanceType.__init__", "Command.__init__", "UnknownGearCommand.__init__",
+                  "UnknownDeviceCommand.__init__")
+
+
 def family_of(cls):
+    """the constructor family (whose argument space the cases below enumerate).  A subclass that gains an __init__ of its
+    own (a refactor) is still exercised with the argument space of the nearest known family it inherits from: if the new
+    constructor accepts something else, the cases fail, which is the point"""
+    first = None
     for k in cls.__mro__:
         if "__init__" in k.__dict__:
-            return k.__dict__["__init__"].__qualname__
-    return None
+            q = k.__dict__["__init__"].__qualname__
+            first = first or q
+            if q in KNOWN_FAMILIES:
+                return q
+    return first
 
 
 def all_classes():
